@@ -86,11 +86,11 @@ func doCall(d *csproto.Decoder, buf []byte, c call, hx bool, x []int, xs [][]int
 	}
 	var err error
 	stub := &stubMsg{fail: c.i1 == 1}
-	func() {
+	run := func(dd *csproto.Decoder, ee *tr.Ev, st *stubMsg) {
 		defer func() {
 			if r := recover(); r != nil {
-				e.St = "panic"
-				e.Note = fmt.Sprint(r)
+				ee.St = "panic"
+				ee.Note = fmt.Sprint(r)
 			}
 		}()
 		a0 := tr.TotalAlloc()
@@ -98,187 +98,208 @@ func doCall(d *csproto.Decoder, buf []byte, c call, hx bool, x []int, xs [][]int
 		case "Tag":
 			var tag int
 			var wt csproto.WireType
-			tag, wt, err = d.DecodeTag()
-			e.Alloc = int(tr.TotalAlloc() - a0)
-			e.Val = []int{tr.Clamp(int64(tag)), tr.Clamp(int64(wt))}
+			tag, wt, err = dd.DecodeTag()
+			ee.Alloc = int(tr.TotalAlloc() - a0)
+			ee.Val = []int{tr.Clamp(int64(tag)), tr.Clamp(int64(wt))}
 		case "Bool":
 			var v bool
-			v, err = d.DecodeBool()
-			e.Alloc = int(tr.TotalAlloc() - a0)
+			v, err = dd.DecodeBool()
+			ee.Alloc = int(tr.TotalAlloc() - a0)
 			if v {
-				e.Val = tr.Word(1)
+				ee.Val = tr.Word(1)
 			} else {
-				e.Val = tr.Word(0)
+				ee.Val = tr.Word(0)
 			}
 		case "UInt32":
 			var v uint32
-			v, err = d.DecodeUInt32()
-			e.Alloc = int(tr.TotalAlloc() - a0)
-			e.Val = tr.Word(uint64(v))
+			v, err = dd.DecodeUInt32()
+			ee.Alloc = int(tr.TotalAlloc() - a0)
+			ee.Val = tr.Word(uint64(v))
 		case "UInt64":
 			var v uint64
-			v, err = d.DecodeUInt64()
-			e.Alloc = int(tr.TotalAlloc() - a0)
-			e.Val = tr.Word(v)
+			v, err = dd.DecodeUInt64()
+			ee.Alloc = int(tr.TotalAlloc() - a0)
+			ee.Val = tr.Word(v)
 		case "Int32":
 			var v int32
-			v, err = d.DecodeInt32()
-			e.Alloc = int(tr.TotalAlloc() - a0)
-			e.Val = tr.Word(uint64(int64(v)))
+			v, err = dd.DecodeInt32()
+			ee.Alloc = int(tr.TotalAlloc() - a0)
+			ee.Val = tr.Word(uint64(int64(v)))
 		case "Int64":
 			var v int64
-			v, err = d.DecodeInt64()
-			e.Alloc = int(tr.TotalAlloc() - a0)
-			e.Val = tr.Word(uint64(v))
+			v, err = dd.DecodeInt64()
+			ee.Alloc = int(tr.TotalAlloc() - a0)
+			ee.Val = tr.Word(uint64(v))
 		case "SInt32":
 			var v int32
-			v, err = d.DecodeSInt32()
-			e.Alloc = int(tr.TotalAlloc() - a0)
-			e.Val = tr.Word(uint64(int64(v)))
+			v, err = dd.DecodeSInt32()
+			ee.Alloc = int(tr.TotalAlloc() - a0)
+			ee.Val = tr.Word(uint64(int64(v)))
 		case "SInt64":
 			var v int64
-			v, err = d.DecodeSInt64()
-			e.Alloc = int(tr.TotalAlloc() - a0)
-			e.Val = tr.Word(uint64(v))
+			v, err = dd.DecodeSInt64()
+			ee.Alloc = int(tr.TotalAlloc() - a0)
+			ee.Val = tr.Word(uint64(v))
 		case "Fixed32":
 			var v uint32
-			v, err = d.DecodeFixed32()
-			e.Alloc = int(tr.TotalAlloc() - a0)
-			e.Val = tr.LE32(v)
+			v, err = dd.DecodeFixed32()
+			ee.Alloc = int(tr.TotalAlloc() - a0)
+			ee.Val = tr.LE32(v)
 		case "Fixed64":
 			var v uint64
-			v, err = d.DecodeFixed64()
-			e.Alloc = int(tr.TotalAlloc() - a0)
-			e.Val = tr.LE64(v)
+			v, err = dd.DecodeFixed64()
+			ee.Alloc = int(tr.TotalAlloc() - a0)
+			ee.Val = tr.LE64(v)
 		case "Float32":
 			var v float32
-			v, err = d.DecodeFloat32()
-			e.Alloc = int(tr.TotalAlloc() - a0)
-			e.Val = tr.F32(v)
+			v, err = dd.DecodeFloat32()
+			ee.Alloc = int(tr.TotalAlloc() - a0)
+			ee.Val = tr.F32(v)
 		case "Float64":
 			var v float64
-			v, err = d.DecodeFloat64()
-			e.Alloc = int(tr.TotalAlloc() - a0)
-			e.Val = tr.F64(v)
+			v, err = dd.DecodeFloat64()
+			ee.Alloc = int(tr.TotalAlloc() - a0)
+			ee.Val = tr.F64(v)
 		case "Bytes":
 			var v []byte
-			v, err = d.DecodeBytes()
-			e.Alloc = int(tr.TotalAlloc() - a0)
-			e.Val = tr.Bytes(v)
+			v, err = dd.DecodeBytes()
+			ee.Alloc = int(tr.TotalAlloc() - a0)
+			ee.Val = tr.Bytes(v)
 		case "String":
 			var v string
-			v, err = d.DecodeString()
-			e.Alloc = int(tr.TotalAlloc() - a0)
-			e.Val = tr.Bytes([]byte(v))
+			v, err = dd.DecodeString()
+			ee.Alloc = int(tr.TotalAlloc() - a0)
+			ee.Val = tr.Bytes([]byte(v))
 		case "PackedBool":
 			var v []bool
-			v, err = d.DecodePackedBool()
-			e.Alloc = int(tr.TotalAlloc() - a0)
+			v, err = dd.DecodePackedBool()
+			ee.Alloc = int(tr.TotalAlloc() - a0)
 			for _, x := range v {
 				if x {
-					e.Vals = append(e.Vals, tr.Word(1))
+					ee.Vals = append(ee.Vals, tr.Word(1))
 				} else {
-					e.Vals = append(e.Vals, tr.Word(0))
+					ee.Vals = append(ee.Vals, tr.Word(0))
 				}
 			}
 		case "PackedInt32":
 			var v []int32
-			v, err = d.DecodePackedInt32()
-			e.Alloc = int(tr.TotalAlloc() - a0)
-			e.Vals = words32(v)
+			v, err = dd.DecodePackedInt32()
+			ee.Alloc = int(tr.TotalAlloc() - a0)
+			ee.Vals = words32(v)
 		case "PackedSint32":
 			var v []int32
-			v, err = d.DecodePackedSint32()
-			e.Alloc = int(tr.TotalAlloc() - a0)
-			e.Vals = words32(v)
+			v, err = dd.DecodePackedSint32()
+			ee.Alloc = int(tr.TotalAlloc() - a0)
+			ee.Vals = words32(v)
 		case "PackedInt64":
 			var v []int64
-			v, err = d.DecodePackedInt64()
-			e.Alloc = int(tr.TotalAlloc() - a0)
+			v, err = dd.DecodePackedInt64()
+			ee.Alloc = int(tr.TotalAlloc() - a0)
 			for _, x := range v {
-				e.Vals = append(e.Vals, tr.Word(uint64(x)))
+				ee.Vals = append(ee.Vals, tr.Word(uint64(x)))
 			}
 		case "PackedSint64":
 			var v []int64
-			v, err = d.DecodePackedSint64()
-			e.Alloc = int(tr.TotalAlloc() - a0)
+			v, err = dd.DecodePackedSint64()
+			ee.Alloc = int(tr.TotalAlloc() - a0)
 			for _, x := range v {
-				e.Vals = append(e.Vals, tr.Word(uint64(x)))
+				ee.Vals = append(ee.Vals, tr.Word(uint64(x)))
 			}
 		case "PackedUint32":
 			var v []uint32
-			v, err = d.DecodePackedUint32()
-			e.Alloc = int(tr.TotalAlloc() - a0)
+			v, err = dd.DecodePackedUint32()
+			ee.Alloc = int(tr.TotalAlloc() - a0)
 			for _, x := range v {
-				e.Vals = append(e.Vals, tr.Word(uint64(x)))
+				ee.Vals = append(ee.Vals, tr.Word(uint64(x)))
 			}
 		case "PackedUint64":
 			var v []uint64
-			v, err = d.DecodePackedUint64()
-			e.Alloc = int(tr.TotalAlloc() - a0)
+			v, err = dd.DecodePackedUint64()
+			ee.Alloc = int(tr.TotalAlloc() - a0)
 			for _, x := range v {
-				e.Vals = append(e.Vals, tr.Word(x))
+				ee.Vals = append(ee.Vals, tr.Word(x))
 			}
 		case "PackedFixed32":
 			var v []uint32
-			v, err = d.DecodePackedFixed32()
-			e.Alloc = int(tr.TotalAlloc() - a0)
+			v, err = dd.DecodePackedFixed32()
+			ee.Alloc = int(tr.TotalAlloc() - a0)
 			for _, x := range v {
-				e.Vals = append(e.Vals, tr.LE32(x))
+				ee.Vals = append(ee.Vals, tr.LE32(x))
 			}
 		case "PackedFixed64":
 			var v []uint64
-			v, err = d.DecodePackedFixed64()
-			e.Alloc = int(tr.TotalAlloc() - a0)
+			v, err = dd.DecodePackedFixed64()
+			ee.Alloc = int(tr.TotalAlloc() - a0)
 			for _, x := range v {
-				e.Vals = append(e.Vals, tr.LE64(x))
+				ee.Vals = append(ee.Vals, tr.LE64(x))
 			}
 		case "PackedFloat32":
 			var v []float32
-			v, err = d.DecodePackedFloat32()
-			e.Alloc = int(tr.TotalAlloc() - a0)
+			v, err = dd.DecodePackedFloat32()
+			ee.Alloc = int(tr.TotalAlloc() - a0)
 			for _, x := range v {
-				e.Vals = append(e.Vals, tr.F32(x))
+				ee.Vals = append(ee.Vals, tr.F32(x))
 			}
 		case "PackedFloat64":
 			var v []float64
-			v, err = d.DecodePackedFloat64()
-			e.Alloc = int(tr.TotalAlloc() - a0)
+			v, err = dd.DecodePackedFloat64()
+			ee.Alloc = int(tr.TotalAlloc() - a0)
 			for _, x := range v {
-				e.Vals = append(e.Vals, tr.F64(x))
+				ee.Vals = append(ee.Vals, tr.F64(x))
 			}
 		case "Nested":
-			err = d.DecodeNested(stub)
-			e.Alloc = 0 // the stub copies its input; allocation is probed on the other calls
-			e.Cnt = stub.cnt
-			e.Sb = tr.Bytes(stub.got)
+			err = dd.DecodeNested(st)
+			ee.Alloc = 0 // the stub copies its input; allocation is probed on the other calls
+			ee.Cnt = stub.cnt
+			ee.Sb = tr.Bytes(stub.got)
 			if err == errStub {
-				e.Same = 1
+				ee.Same = 1
 			}
 		case "Skip":
 			var v []byte
-			v, err = d.Skip(c.fn, csproto.WireType(c.wt))
-			e.Alloc = int(tr.TotalAlloc() - a0)
-			e.Val = tr.Bytes(v)
+			v, err = dd.Skip(c.fn, csproto.WireType(c.wt))
+			ee.Alloc = int(tr.TotalAlloc() - a0)
+			ee.Val = tr.Bytes(v)
 		case "Seek":
-			_, err = d.Seek(int64(c.i1), c.i2)
-			e.Alloc = int(tr.TotalAlloc() - a0)
+			_, err = dd.Seek(int64(c.i1), c.i2)
+			ee.Alloc = int(tr.TotalAlloc() - a0)
 		case "Reset":
-			d.Reset()
+			dd.Reset()
 		case "SetMode":
-			d.SetMode(csproto.DecoderMode(c.i1))
+			dd.SetMode(csproto.DecoderMode(c.i1))
 		case "More":
-			if d.More() {
-				e.Val = []int{1}
+			if dd.More() {
+				ee.Val = []int{1}
 			} else {
-				e.Val = []int{0}
+				ee.Val = []int{0}
 			}
 		case "Offset":
-			e.Val = []int{d.Offset()}
+			ee.Val = []int{dd.Offset()}
 		default:
 			panic("harness: unknown op " + c.op)
 		}
-	}()
+	}
+	run(d, e, stub)
+	if e.Alloc > 64*len(buf)+4096 && e.St != "panic" {
+		// TotalAlloc is process-wide (a runtime-internal allocation can fall into the window); an allocation driven by the input is
+		// deterministic: repeat the call on fresh decoders at the same position and keep the smallest reading
+		for k := 0; k < 3; k++ {
+			d2 := csproto.NewDecoder(buf)
+			if e.Mode == 1 {
+				d2.SetMode(csproto.DecoderModeFast)
+			}
+			if _, serr := d2.Seek(int64(e.P), 0); serr != nil {
+				break
+			}
+			e2 := &tr.Ev{}
+			errKeep := err
+			run(d2, e2, &stubMsg{fail: c.i1 == 1})
+			err = errKeep
+			if e2.Alloc < e.Alloc {
+				e.Alloc = e2.Alloc
+			}
+		}
+	}
 	if e.St == "" {
 		if err != nil {
 			e.St = "err"
